@@ -111,8 +111,8 @@ class FnGen2(irgen.FnGen):
             if ps < size or qs < size:
                 return
             x, y = self.get(env, t), self.get(env, t)
-            self.emit(ir.Store(x, p))
             self.emit(ir.Store(y, q))
+            self.emit(ir.Store(x, p))
             r = rng.random()
             if r < 0.4:
                 self.emit(ir.CopyBlob(p, q, size))                   # overwrites the stored value
